@@ -61,8 +61,22 @@ def api_terms(tier):  # noqa: C901
         yield "where", ["where", ph("c", S, dc), ph("a", S, "float64"), ["py", "nan"]]
     for fn in T.MATHFNS:
         for dt in ("float64", "float32", "complex128"):
-            for shape in (S, (3,), ()):
+            for shape in (S, (3,), (), (1, 3), (3, 1), (1,), (2, 1, 3)):
                 yield "math", ["fn", fn, ph("a", shape, dt)]
+    for shape in ((1, 3), (3, 1), (1,), (2, 1, 3), (1, 1)):
+        yield "math", ["arctan2", ph("a", shape, "float64"), ph("b", shape, "float64")]
+        for dt in ("float64", "int32", "bool"):
+            yield "unary", ["neg", ph("a", shape, dt)]
+            yield "unary", ["abs", ph("a", shape, dt)]
+            yield "lnot", ["lnot", ph("a", shape, dt)]
+            yield "zeros_like", ["zeros_like", ph("a", shape, dt)]
+            yield "astype", ["astype", ph("a", shape, dt), "float32"]
+            for op in (("bin", "add"), ("bin", "mul"), ("cmp", "less"), ("logic", "logical_and")):
+                yield "binop", space.mkbin(op, ph("a", shape, dt), ph("b", shape, dt))
+                yield "binop-scalar", space.mkbin(op, ph("a", shape, dt), ["py", 2])
+            yield "where", ["where", ph("c", shape, "bool"), ph("a", shape, dt), ph("b", shape, dt)]
+            yield "reduce", ["red", "sum", ph("a", shape, dt), None]
+            yield "reduce", ["red", "amax", ph("a", shape, dt), 0]
     yield "math", ["arctan2", ph("a", S, "float64"), ph("b", S, "float64")]
     yield "math", ["arctan2", ph("a", S, "float64"), ["py", 2.0]]
     for dt in ("float64", "int32", "bool", "complex128"):
@@ -71,8 +85,10 @@ def api_terms(tier):  # noqa: C901
         yield "lnot", ["lnot", ph("a", S, dt)]
         yield "zeros_like", ["zeros_like", ph("a", S, dt)]
         yield "ones_like", ["ones_like", ph("a", S, dt)]
-        for d2 in ("float64", "float32", "int64", "complex128", "int32"):
+        for d2 in ("float64", "float32", "int64", "complex128", "int32", "int8", "uint16", "bool"):
             yield "astype", ["astype", ph("a", S, dt), d2]
+    for d1, d2 in (("int64", "int8"), ("int64", "int32"), ("int32", "uint16"), ("int64", "float32"), ("float64", "float32")):
+        yield "astype", ["astype", ph("a", S, d1), d2]
     for op in T.REDOPS:
         for shape in [(3,), S, (2, 3, 2), (1, 3)]:
             for ax in space.axis_subsets(len(shape)):
@@ -264,7 +280,7 @@ def eval_hlo(hlo, shape, val_of):  # noqa: C901
         if isinstance(hlo, R.LogicalNotOp):
             return np.broadcast_to(np.logical_not(v(hlo.x)), shape)
         if isinstance(hlo, R.ZerosLikeOp):
-            return np.zeros(shape)
+            return np.zeros(shape, np.asarray(v(hlo.x)).dtype)
         if isinstance(hlo, R.ReduceOp):
             f = {red.SumReductionOperation: np.sum, red.ProductReductionOperation: np.prod,
                  red.MaxReductionOperation: np.amax, red.MinReductionOperation: np.amin,
@@ -288,7 +304,7 @@ def enumerate_cases(tier, seed):
     return [{"batch": terms[i:i + BATCH]} for i in range(0, len(terms), BATCH)]
 
 
-def check_lambda(il, inputs_list, where, fam, mutated, viol, ocs):  # noqa: C901
+def check_lambda(il, inputs_list, where, fam, mutated, viol, ocs, dtype_deviates=False):  # noqa: C901
     import pytato as pt
     from pytato.raising import index_lambda_to_high_level_op
     from pytato.diagnostic import UnknownIndexLambdaExpr
@@ -326,13 +342,30 @@ def check_lambda(il, inputs_list, where, fam, mutated, viol, ocs):  # noqa: C901
                                  "mutated": bool(mutated)},
                          "msg": f"{where}: applying {hlo!r} with NumPy failed: {type(e).__name__}: {e}"[:900]})
             return "bad"
-        # the raiser documents that it drops type casts: compare in the lambda's own dtype
-        try:
-            with np.errstate(all="ignore"):
-                if not (hv.dtype.kind == "c" and pv.dtype.kind != "c"):
-                    hv = hv.astype(pv.dtype)
-        except Exception:  # noqa: BLE001
-            pass
+        # The raiser drops the casts pytato inserts to reach the *result* dtype; NumPy's own promotion
+        # re-creates those, so the operation applied with NumPy must give the lambda's dtype as well --
+        # unless pytato's dtype for this operation deviates from NumPy's in the first place (a C03
+        # matter: sum of bool, any/all, isnan, ...), in which case the comparison is made in the
+        # lambda's dtype.
+        if hv.dtype != pv.dtype:
+            import dataclasses as _dc
+            import pytato as _pt
+            has_scalar = any(not isinstance(getattr(hlo, f.name), (_pt.Array, tuple, str)) and f.name not in ("binary_op", "op", "axes", "function")
+                             for f in _dc.fields(hlo)) or any(
+                not isinstance(a, _pt.Array) for f in _dc.fields(hlo) if isinstance(getattr(hlo, f.name), tuple)
+                for a in getattr(hlo, f.name))
+            # a scalar operand's NumPy type is not recorded in the operation (Python scalars are
+            # weakly typed): no dtype claim can be made then
+            if dtype_deviates or has_scalar:
+                with np.errstate(all="ignore"):
+                    if not (hv.dtype.kind == "c" and pv.dtype.kind != "c"):
+                        hv = hv.astype(pv.dtype)
+            else:
+                viol.append({"sig": {"kind": "misread", "hlo": type(hlo).__name__, "as": mutated or fam, "what": "dtype"},
+                             "msg": f"{where}: raised as {hlo!r}; with NumPy that operation yields dtype {hv.dtype}, the "
+                                    f"lambda is {pv.dtype}\nexpr: {il.expr}"[:1200]})
+                ocs.append("misread")
+                return "bad"
         bad = values.compare(hv, pv, check_dtype=False, min_eps=float(np.finfo(np.float32).eps), nred=16,
                              scale=float(np.nanmax(np.abs(pv[np.isfinite(pv)]))) if pv.size and np.isfinite(pv).any() else 1.0)
         if bad:
@@ -372,7 +405,11 @@ def run_case(case):  # noqa: C901
             ocs.append("all-valuations-excluded")
             continue
         n += 1
-        r = check_lambda(node, inputs_list, f"{t}", fam, None, viol, ocs)
+        try:
+            dev = np.dtype(node.dtype) != T.np_shape_dtype(t)[1] or progcheck.dtype_deviation(t) is not None
+        except Exception:  # noqa: BLE001
+            dev = True
+        r = check_lambda(node, inputs_list, f"{t}", fam, None, viol, ocs, dev)
         if r in ("ok", "unknown"):
             keys.append([t, None])
         for kind in MUTATIONS:
@@ -393,7 +430,7 @@ def run_case(case):  # noqa: C901
                     ocs.append("mutant-unbuildable")
                     continue
                 n += 1
-                r = check_lambda(mil, inputs_list, f"{t} mutated [{kind}: {descr}]", fam, kind, viol, ocs)
+                r = check_lambda(mil, inputs_list, f"{t} mutated [{kind}: {descr}]", fam, kind, viol, ocs, dev)
                 if r in ("ok", "unknown"):
                     keys.append([t, kind, i])
     return {"evaluations": n, "keys": keys, "outcome": ocs, "violations": viol,
